@@ -4,6 +4,7 @@ EXTENDS Bridge, Json
 CONSTANTS W, H, Alphabet
 MCInit == InitWith([1..H -> [1..W -> Alphabet]])
 ModelC12 == Done => C12_With(rows, [ModelDoc(out) EXCEPT !.wf = 1] @@ [w |-> RefCanvasW(rows), h |-> RefCanvasH(rows)])
+ModelC05 == Done => C05s_OK(ModelEvent)
 ModelC09 == Done => C09_OK(ModelEvent)
 Emit == Done => PrintT(<<"REPLAY", ToJson([rows |-> rows, out |-> out])>>)
 =============================================================================
